@@ -47,7 +47,8 @@ def run(run: Run):
     for c in contracts(m):
         m.add_contract(c)
     for c in list(m.contracts.values()):
-        run.verify(m, c)
+        if c.source:
+            run.verify(m, c)
     run.assume("PrimitiveType.__eq__(bare python type) is `python_type is other`; other wrappers compare unequal to a bare type (modelled from the code, cross-checked natively)")
 
 
@@ -142,6 +143,15 @@ def native_failures(shapes, contract_name="Method.paged_result_field"):
 
 
 def falsify(run, group, info):
+    if group.startswith("pager"):
+        from props import C07_native
+        f = C07_native.pager_scenarios()
+        run.bounded.append({"what": "falsifier: generated pagers driven over a loopback channel with scripted page histories", "cases": 8})
+        return ({"kind": "pager", "failures": f[:6]}, True) if f else (None, False)
+    return falsify_classification(run, group, info)
+
+
+def falsify_classification(run, group, info):
     """Search the shape corpus for a concrete failing input that lies outside every known-finding class of this clause."""
     if not group.startswith("Method.paged_result_field"):
         group = "Method.paged_result_field:*"       # a broken helper clause: look for an input that breaks the top-level contract
@@ -168,6 +178,11 @@ def witness_still_fails(k):
 def replay(path):
     import json
     doc = json.load(open(path))
+    if (doc.get("replay") or {}).get("kind") == "pager":
+        from props import C07_native
+        f = C07_native.pager_scenarios()
+        print("pager scenarios ->", "FAIL " + json.dumps(f[:3]) if f else "conform")
+        return 1 if f else 0
     shape = (doc.get("replay") or {}).get("shape")
     if not shape:
         print("replay file carries no concrete input (no-failing-input-found); solver output:", json.dumps(doc.get("open"))[:1500])
@@ -175,3 +190,12 @@ def replay(path):
     fails, _ = native_failures([shape])
     print("shape:", shape, "->", "FAILS " + str(fails[0][1]) if fails else "conforms")
     return 1 if fails else 0
+
+
+_stage1_run = run
+
+
+def run(run: Run):          # noqa: F811  (stage 1 + stage 2)
+    _stage1_run(run)
+    from props import C07_pagers
+    C07_pagers.run(run)
